@@ -207,7 +207,23 @@ def check_sweeps(rep, ws, t):
                     if jk is None or jk[0] == jk[1]: odd.append(cal[:60])
                     else: pairs.add(tuple(sorted(jk)))
                 elif 'maxOffDiag' in cal: measures += 1
+        # the loop's exit test compares the measure of the current matrix with tol * (measure of the input)
+        ids = {}
+        for b in f['blocks']:
+            for i in b['insts']: ids[i.get('id')] = i
+        mcalls = [i for b in f['blocks'] for i in b['insts'] if i.get('op') in ('call', 'invoke') and 'maxOffDiag' in i.get('callee', '')]
+        rel_bad = None
+        if len(mcalls) >= 2:
+            first = mcalls[0]['id']
+            scaled = [i['id'] for i in ids.values() if i.get('op') == 'fmul' and any(o.get('k') == 'v' and o.get('id') == first for o in i.get('ops', []))]
+            cmps = [i for i in ids.values() if i.get('op') == 'fcmp' and any(o.get('k') == 'v' and o.get('id') in [c['id'] for c in mcalls[1:]] for o in i.get('ops', []))]
+            if not cmps: rel_bad = 'the measure of the current matrix is not compared with anything'
+            elif not scaled: rel_bad = 'no tolerance relative to the input (tol * measure of the input matrix)'
+            elif not all(any(o.get('k') == 'v' and o.get('id') in scaled for o in c.get('ops', [])) for c in cmps):
+                rel_bad = 'the sweep loop compares the measure of the current matrix with something other than tol * (measure of the input matrix): for uniformly tiny or huge matrices an absolute threshold stops too early or never'
         want = set((j, k) for j in range(d) for k in range(j + 1, d))
+        if rel_bad:
+            rep.ob(oid, 'R12.sweep', VIOLATED, rel_bad, where); continue
         if odd or not pairs:
             rep.ob(oid, 'R12.sweep', UNDECIDED, 'rotation calls not recognised: %s' % (odd[:2] or 'none found'), where); continue
         missing = sorted(want - pairs)
